@@ -1,10 +1,13 @@
-"""C06 — configuration of the check (deductive tier under construction)."""
+"""C06 — TOAST sampling writes the sampler's values at each tile's own pixel centres."""
 PROPERTY = "C06"
-LEVEL = "exploration"
-CONTRACT_MODULES = ["contracts.specfuns"]
-FUNCTIONS = []
+LEVEL = "other"
+CONTRACT_MODULES = ["contracts.specfuns", "contracts.lemmas_desc", "contracts.pyramid", "contracts.image", "contracts.merge",
+                    "contracts.pyramidio", "contracts.study", "contracts.parallel", "contracts.multitan", "contracts.toastsample"]
+FUNCTIONS = ["toasty.toast.toast_tile_get_coords", "toasty.toast.ToastSampler.visit_callback",
+             "toasty.toast.sample_layer", "toasty.toast.sample_layer_filtered"]
 LEMMAS = []
 SLOW = ()
-TRUSTED_BASE = []
-ASSUMPTIONS = []
-EXPLANATION = "bounded run-time tier only so far"
+TRUSTED_BASE = ["pyvc VC generator; z3/cvc5", "numpy contracts (pyvc/ndarray.py)", "compiled subsample (C05)",
+                "the user sampler is an arbitrary function of the coordinate arrays"]
+ASSUMPTIONS = ["that every accepted leaf is visited once with its own Tile is C03/C13; the level-0 grid and real files are bounded"]
+EXPLANATION = "visit_callback proved: sampler evaluated at this tile's grid, rows reversed iff the pyramid is bottom-up, clobber and update modes"
